@@ -359,8 +359,10 @@ func (e *Explorer) count(n *node, ex *Expect, res *BlockResult, deltaIdx []int, 
 			v["dev_panic_index_injected"]++
 		case oOOG:
 			v["dev_out_of_gas_injected"]++
+		case oGasOvf:
+			v["dev_gas_overflow_injected"]++
 		}
-		if g.Out != oOK && g.Out != oOOG {
+		if g.Out != oOK && g.Out != oOOG && g.Out != oGasOvf {
 			contained = true
 			// the other subscriber at the same signal
 			for j, h := range res.Log {
